@@ -8,7 +8,8 @@ import Mathlib.Algebra.Order.Field.Rat
 /-!
 # NON-VACUITY of the SequenceLearner / AverageLearner / wrapper theorems of C09, C10, C11, C13
 
-Concrete valid op lists for `Seq.ValidOps` and `Avg.ValidOps` (with the states they reach), the `Perm`/`Nodup`
+Concrete valid op lists for `Seq.ValidOps`, concrete AverageLearner histories (no validity proviso any more; they
+contain a `tell_pending` of an already told seed) with the states they reach, the `Perm`/`Nodup`
 hypotheses of C11.a/b, and concrete learners for the generic wrapper theorems of C09.
 (Learner1D instances are in `Examples/L1D.lean`; the lawful Balancing child is `Balancing.Ex.toy`.)
 -/
@@ -60,40 +61,71 @@ example : Seq.run (Seq.init 5) (tsS.map Seq.tellOp) = Seq.run (Seq.init 5) (tsS'
   C11.seq_order_irrelevant 5 tsS_perm tsS_nodup
 example : (Seq.run (Seq.init 5) (tsS.map Seq.tellOp)).data = [(0, "a"), (1, "b"), (2, "c"), (3, "d")] := by decide
 
-/-! ## AverageLearner (C10 `avg_told_not_pending_partial`, `avg_retell_noop`, C11.b) -/
-
-instance (s : Avg.State ℚ) (op : Avg.Op ℚ) : Decidable (Avg.ValidOp s op) := by
-  cases op <;> simp only [Avg.ValidOp] <;> infer_instance
-
-instance decAvgValidOps : (s : Avg.State ℚ) → (ops : List (Avg.Op ℚ)) → Decidable (Avg.ValidOps s ops)
-  | _, [] => isTrue trivial
-  | s, op :: ops =>
-    have := decAvgValidOps (Avg.step s op) ops
-    by simp only [Avg.ValidOps]; infer_instance
+/-! ## AverageLearner (C10 `avg_told_not_pending_partial`, `avg_retell_noop`, `avg_tellPending_known_noop`,
+`avg_retell_after_pending_noop`, `avg_retell_after_pending_run`, `avg_asked_pending_until_told`, C11.b) -/
 
 /-- a history: a committing ask that returned seeds 0, 1, 2, results in another order, an explicit pending mark of
-a fresh seed, a re-tell, a discard, another committing ask -/
+a fresh seed, a pending mark of the ALREADY TOLD seed 2, a re-tell of it, a committing ask whose points contain the
+told seed 0, a discard, another committing ask, a pending mark of the told seed 0 -/
 def avgOps : List (Avg.Op ℚ) :=
-  [.askCommit [0, 1, 2], .tell 2 (1/2), .tell 0 3, .tellPending 5, .tell 2 7, .removeUnfinished,
-   .askCommit [1, 3], .tell 3 (-1)]
+  [.askCommit [0, 1, 2], .tell 2 (1/2), .tell 0 3, .tellPending 5, .tellPending 2, .tell 2 7, .askCommit [0, 4],
+   .removeUnfinished, .askCommit [1, 3], .tell 3 (-1), .tellPending 0]
 
-theorem avgValid : Avg.ValidOps (Avg.init (some (1/10 : ℚ)) none 2) avgOps := by decide +kernel
+/-- the history marks seeds pending that have a value at that moment (before the repair
+`fix: AverageLearner.tell_pending marked an already evaluated seed as pending` such a history was excluded by the
+proviso `Avg.ValidOps`) -/
+example : Avg.hasKey 2 (Avg.run (Avg.init (some (1/10 : ℚ)) none 2) (avgOps.take 4)).data = true ∧
+    Avg.hasKey 0 (Avg.run (Avg.init (some (1/10 : ℚ)) none 2) (avgOps.take 6)).data = true ∧
+    Avg.hasKey 0 (Avg.run (Avg.init (some (1/10 : ℚ)) none 2) (avgOps.take 10)).data = true := by decide +kernel
+example : avgOps = avgOps.take 4 ++ .tellPending 2 :: avgOps.drop 5 ∧
+    avgOps = avgOps.take 6 ++ .askCommit [0, 4] :: avgOps.drop 7 ∧
+    avgOps = avgOps.take 10 ++ [.tellPending 0] := ⟨rfl, rfl, rfl⟩
 
-/-- the quantifier excludes marking a told seed pending -/
-example : ¬ Avg.ValidOps (Avg.init (some (1/10 : ℚ)) none 2) [.tell 0 1, .tellPending 0] := by decide +kernel
+/-- C10 `avg_told_not_pending_partial` on that history (no hypothesis left to discharge) -/
+example := C10.avg_told_not_pending_partial (some (1/10 : ℚ)) none 2 avgOps
 
-example := C10.avg_told_not_pending_partial (some (1/10 : ℚ)) none 2 avgOps avgValid
+/-- … and on the former counterexample: seed 0 has a value and is not pending -/
+example : let s := Avg.run (Avg.init (none : Option ℚ) none 2) [.tell 0 1, .tellPending 0, .tell 0 2]
+    Avg.hasKey 0 s.data = true ∧ 0 ∉ s.pending := by
+  intro s
+  have h : Avg.hasKey 0 s.data = true := by decide +kernel
+  exact ⟨h, (C10.avg_told_not_pending_partial (none : Option ℚ) none 2 _).2 0 h⟩
 
-/-- the state reached: three values, one pending seed -/
+/-- the state reached: three values, one pending seed; right after the pending mark of the told seed 2 (prefix of
+length 5) and after the committing ask that contained the told seed 0 (prefix of length 7) the told seeds are not
+pending -/
 example : (Avg.run (Avg.init (some (1/10 : ℚ)) none 2) avgOps).data = [(2, 1/2), (0, 3), (3, -1)] ∧
     (Avg.run (Avg.init (some (1/10 : ℚ)) none 2) avgOps).pending = [1] ∧
     (Avg.run (Avg.init (some (1/10 : ℚ)) none 2) avgOps).npoints = 3 ∧
-    (Avg.run (Avg.init (some (1/10 : ℚ)) none 2) avgOps).sumF = 5/2 := by decide +kernel
+    (Avg.run (Avg.init (some (1/10 : ℚ)) none 2) avgOps).sumF = 5/2 ∧
+    (Avg.run (Avg.init (some (1/10 : ℚ)) none 2) (avgOps.take 5)).pending = [5, 1] ∧
+    (Avg.run (Avg.init (some (1/10 : ℚ)) none 2) (avgOps.take 7)).pending = [4, 5, 1] := by decide +kernel
 
 /-- C10 `avg_retell_noop`: the hypothesis holds for seed 2 in the reachable state -/
 example : Avg.tell (Avg.run (Avg.init (some (1/10 : ℚ)) none 2) avgOps) 2 99 =
     Avg.run (Avg.init (some (1/10 : ℚ)) none 2) avgOps :=
   C10.avg_retell_noop _ 2 99 (by decide +kernel)
+
+/-- C10 `avg_tellPending_known_noop`: the hypothesis holds for seed 2 in the reachable state -/
+example : Avg.tellPending (Avg.run (Avg.init (some (1/10 : ℚ)) none 2) avgOps) 2 =
+    Avg.run (Avg.init (some (1/10 : ℚ)) none 2) avgOps :=
+  C10.avg_tellPending_known_noop _ 2 (by decide +kernel)
+
+/-- C10 `avg_retell_after_pending_noop` / `avg_retell_after_pending_run` in the state reached by that history, for
+a FRESH seed 7 (the first `tell` does something: 7 gets the value 4, not 9) and for the told seed 2 -/
+example := C10.avg_retell_after_pending_noop (Avg.run (Avg.init (some (1/10 : ℚ)) none 2) avgOps) 7 4 9
+example := C10.avg_retell_after_pending_run (some (1/10 : ℚ)) none 2 avgOps 7 4 9
+example := C10.avg_retell_after_pending_run (some (1/10 : ℚ)) none 2 avgOps 2 4 9
+example :
+    let s := Avg.run (Avg.init (some (1/10 : ℚ)) none 2) avgOps
+    let t := Avg.tell (Avg.tellPending (Avg.tell s 7 4) 7) 7 9
+    t.data = [(2, 1/2), (0, 3), (3, -1), (7, 4)] ∧ t.pending = [1] ∧ t.npoints = 4 ∧ t.sumF = 13/2 := by
+  decide +kernel
+
+/-- C10 `avg_asked_pending_until_told`: a real `ask(2)` in the state reached (its hypothesis is inhabited) -/
+theorem avgAsk : Avg.askPoints (Avg.run (Avg.init (some (1/10 : ℚ)) none 2) avgOps) 2 [] = some [4, 5] := by
+  decide +kernel
+example := C10.avg_asked_pending_until_told _ 2 [] [4, 5] avgAsk
 
 /-- C11.b: two orders of four results with distinct seeds -/
 def tsA : List (Nat × ℚ) := [(0, 1), (3, 1/2), (1, 7), (2, 2)]
